@@ -186,7 +186,7 @@ def knowsServers (rb : Fin p → Option Content) (s : Store p) (x : Fin p) : Boo
 /-- `checkBackendPair` answers true -/
 def pairOK (s : Store p) (bad : Nat → Bool) (rb : Fin p → Option Content) (pcD : Fin p → Bool) (x : Fin p) : Bool :=
   match s.add x with
-  | none => true                                   -- removed backends are not looked at
+  | none => (s.del x).isNone                       -- a removed backend asks for a reload
   | some _ =>
     match pair? s x with
     | none => false                                -- added backend, or more endpoints than slots
